@@ -211,7 +211,9 @@ def handleU (st : St) (n : Nat) (toks : List String) : Result := Id.run do
         | none => st := st.bump "c09.outside-claim"
         | some v =>
           st := st.bump s!"c09.rule.{v.name}"
-          if v.name != ierr then
+          let excused := (v == .accepted || v == .firstUse) && ierr == "other" &&
+            (outF.err == .signFailed || outF.err == .storage)   -- accepting rule, but the cosigned note cannot be produced/stored
+          if v.name != ierr && !excused then
             let r := fail st n "C09" s!"first matching rule is {v.name}, witness answered {ierr}"
             st := r.st; outs := outs ++ r.out
           else if v.returnsStored && iret != pre then
